@@ -238,10 +238,10 @@ package heapq
 //@ func (*Queue).Each
 //@   role f yield
 //@   requires q != nil
-//@   ensures  trace: exists m int :: 0 <= m && m <= len(q.data) && ncalls(f) == old(ncalls(f)) + m
-//@+       && (forall i int :: 0 <= i && i < m ==> callarg(f, old(ncalls(f)) + i) == q.data[i])
-//@+       && (forall i int :: 0 <= i && i < m - 1 ==> callret(f, old(ncalls(f)) + i))
-//@+       && (m < len(q.data) ==> m > 0 && !callret(f, old(ncalls(f)) + m - 1))
+//@   ensures  count: ncalls(f) >= old(ncalls(f)) && ncalls(f) - old(ncalls(f)) <= len(q.data)
+//@   ensures  args: forall i int :: 0 <= i && i < ncalls(f) - old(ncalls(f)) ==> callarg(f, old(ncalls(f)) + i) == q.data[i]
+//@   ensures  went: forall i int :: 0 <= i && i < ncalls(f) - old(ncalls(f)) - 1 ==> callret(f, old(ncalls(f)) + i)
+//@   ensures  stopped: ncalls(f) - old(ncalls(f)) < len(q.data) ==> ncalls(f) > old(ncalls(f)) && !callret(f, ncalls(f) - 1)
 //@   modifies calls(f)
 //@   loop 1: invariant count: ncalls(f) == old(ncalls(f)) + it1
 //@   loop 1: invariant args: forall i int :: 0 <= i && i < it1 ==> callarg(f, old(ncalls(f)) + i) == q.data[i] && callret(f, old(ncalls(f)) + i)
